@@ -85,7 +85,28 @@ func extractLogTables(c *Ctx, rule string) *logTables {
 	if fd == nil {
 		return nil
 	}
-	for _, sw := range switchesIn(fd.Body) {
+	// the switch over the log type may live in a helper of the package that HydrateLog calls
+	// (`payload := newLogPayload(_type)`)
+	bodies := []*ast.BlockStmt{fd.Body}
+	ast.Inspect(fd.Body, func(n ast.Node) bool {
+		call, ok := n.(*ast.CallExpr)
+		if !ok {
+			return true
+		}
+		if id, ok := call.Fun.(*ast.Ident); ok {
+			if fobj, ok := p.TypesInfo.Uses[id].(*types.Func); ok && fobj.Pkg() != nil && fobj.Pkg().Path() == pkgLedger {
+				if _, hd := c.FuncDecl(pkgLedger, fobj.Name()); hd != nil && hd.Body != nil {
+					bodies = append(bodies, hd.Body)
+				}
+			}
+		}
+		return true
+	})
+	var hydrateSwitches []*ast.SwitchStmt
+	for _, b := range bodies {
+		hydrateSwitches = append(hydrateSwitches, switchesIn(b)...)
+	}
+	for _, sw := range hydrateSwitches {
 		for _, cl := range clausesOf(sw.Body) {
 			if cl.Default {
 				continue
@@ -448,17 +469,50 @@ func ruleR05f(c *Ctx, rule string) {
 	// ComputeHash: Encode(previous.Hash) on previous != nil, Encode(l), Hash = digest.Sum
 	var encPrev, encSelf, stored bool
 	recv, prevP := compute.Params[0], compute.Params[1]
+	// values written to the digest: arguments of Encoder.Encode, directly or through a local closure / helper of
+	// the package that passes its parameter to Encode (`mustEncode(v)`)
+	var encoded []ssa.Value
 	for _, b := range compute.Blocks {
 		for _, ins := range b.Instrs {
-			if call, ok := ins.(*ssa.Call); ok && calleeFullName(call) == "(*encoding/json.Encoder).Encode" {
-				arg := strip(call.Call.Args[1])
-				if base, ok := fieldRead(arg, hashField); ok && base == prevP {
-					encPrev = true
-				}
-				if arg == recv {
-					encSelf = true
-				}
+			call, ok := ins.(*ssa.Call)
+			if !ok {
+				continue
 			}
+			if calleeFullName(call) == "(*encoding/json.Encoder).Encode" {
+				encoded = append(encoded, strip(call.Call.Args[1]))
+				continue
+			}
+			var g *ssa.Function
+			if lit := closureOf(call.Call.Value, 0); lit != nil {
+				g = lit
+			} else if sc := staticCallee(call); sc != nil && fnPkgPath(sc) == pkgLedger {
+				g = sc
+			}
+			if g == nil || len(g.Blocks) == 0 {
+				continue
+			}
+			allCalls(g, func(ci ssa.CallInstruction) {
+				if calleeFullName(ci) != "(*encoding/json.Encoder).Encode" {
+					return
+				}
+				if p, ok := stripLoadOfParamCell(strip(ci.Common().Args[1])).(*ssa.Parameter); ok {
+					if i := paramIndex(p); i >= 0 && i < len(call.Call.Args) {
+						encoded = append(encoded, strip(call.Call.Args[i]))
+					}
+				}
+			})
+		}
+	}
+	for _, arg := range encoded {
+		if base, ok := fieldRead(arg, hashField); ok && base == prevP {
+			encPrev = true
+		}
+		if arg == recv {
+			encSelf = true
+		}
+	}
+	for _, b := range compute.Blocks {
+		for _, ins := range b.Instrs {
 			if val, base, ok := storeToField(ins, hashField); ok && base == recv {
 				if call, ok := val.(*ssa.Call); ok && call.Call.IsInvoke() && call.Call.Method.Name() == "Sum" {
 					stored = true
